@@ -569,10 +569,29 @@ func (e *Exec) sha1Digest(in []*Term) []*Term {
 		raw[i] = byte(b.c)
 	}
 	out := make([]*Term, 20)
+	ckey := fmt.Sprintf("sha1conc:%d", len(in))
+	ukey := fmt.Sprintf("sha1uf:%d", len(in))
+	digestEq := func(a, b []*Term) *Term {
+		cs := make([]*Term, 20)
+		for i := range cs {
+			cs[i] = e.tt.Eq(a[i], b[i])
+		}
+		return e.tt.And(cs...)
+	}
 	if conc {
 		d := sha1.Sum(raw)
 		for i := range out {
 			out[i] = e.tt.BV(8, uint64(d[i]))
+		}
+		// collision-freeness also links real digests and uninterpreted ones: an earlier symbolic input
+		// of the same length has this digest only if it is this input
+		if !e.cfg.HashTransparent {
+			ufApps, _ := e.hostState[ukey].([][2][]*Term)
+			for _, ua := range ufApps {
+				e.addPC(e.tt.Implies(digestEq(ua[1], out), e.bytesEq(ua[0], in)))
+			}
+			cApps, _ := e.hostState[ckey].([][2][]*Term)
+			e.hostState[ckey] = append(cApps, [2][]*Term{append([]*Term{}, in...), append([]*Term{}, out...)})
 		}
 		return out
 	}
@@ -584,7 +603,13 @@ func (e *Exec) sha1Digest(in []*Term) []*Term {
 	}
 	ufo := e.ufBytes("uf_sha1", in, 20, true)
 	copy(out, ufo)
-	e.stubUsed("crypto/sha1 as uninterpreted function (injective over the applications on a path)")
+	cApps, _ := e.hostState[ckey].([][2][]*Term)
+	for _, ca := range cApps {
+		e.addPC(e.tt.Implies(digestEq(out, ca[1]), e.bytesEq(in, ca[0])))
+	}
+	ufApps, _ := e.hostState[ukey].([][2][]*Term)
+	e.hostState[ukey] = append(ufApps, [2][]*Term{append([]*Term{}, in...), append([]*Term{}, out...)})
+	e.stubUsed("crypto/sha1 as uninterpreted function (injective over the applications on a path, concrete ones included)")
 	return out
 }
 
